@@ -83,7 +83,7 @@ def circuit_tie(chk):
 
 
 CLASSIFY_THEOREMS = ["classify_ir_correct", "default_classifier_ir", "strict_classifier_ir", "source_marker_wins", "coerce_ir_correct",
-                     "http_classifier_ir"]
+                     "http_classifier_ir", "sqlstate_classifier_ir", "pyodbc_classifier_ir"]
 
 
 def classify_tie(chk):
@@ -95,7 +95,7 @@ def classify_tie(chk):
     try:
         prog = pyir_classify.generate(os.path.join(common.REPO, "src"), out, tpl)
     except pyir_translate.TranslationError as e:
-        return {"ok": False, "stage": "translate", "detail": f"redress/classify.py or extras/http.py is outside the translated fragment: {e}"}
+        return {"ok": False, "stage": "translate", "detail": f"redress/classify.py or an extras classifier is outside the translated fragment: {e}"}
     except (OSError, SyntaxError) as e:
         return {"ok": False, "stage": "translate", "detail": f"redress/classify.py could not be read: {e}"}
     rc, stdout, stderr, wall = common.run(["coqc", "-Q", common.THEORIES, "Redress", "-w", "none", out], 600, cwd=chk.workdir)
@@ -104,8 +104,11 @@ def classify_tie(chk):
                 "detail": f"obligation on the translated source no longer checks: {stderr.strip()[-600:]}", "ir": {"_classify": prog}}
     return {"ok": True, "stage": "done", "theorems": CLASSIFY_THEOREMS, "closed_under_global_context": stdout.count("Closed under the global context"),
             "seconds": round(wall, 1), "functions": ["_classify", "default_classifier", "strict_classifier", "extras.http._coerce_status",
-                                                     "extras.http.http_classifier"],
-            "not_translated": ["extras/sqlstate.py", "extras/pyodbc.py (regular-expression search)", "optional-library classifiers"]}
+                                                     "extras.http.http_classifier", "extras.sqlstate.sqlstate_classifier",
+                                                     "extras.pyodbc.pyodbc_classifier"],
+            "not_translated": ["optional-library classifiers (aiohttp, grpc, boto3, redis, urllib3)",
+                               "the regular expressions themselves: the two pattern literals are matched verbatim and stand for the "
+                               "model's search_sqlstate / search_bracketed"]}
 
 
 def report(chk, tie, name, searched):
